@@ -24,12 +24,19 @@ AppliedOk(o, root, iv, sharp) ==
      /\ (pc \notin NaturalPcs => app.a = (IF sharp THEN 1 ELSE -1))   \* else the requested accidental
      /\ o.octave = total \div 12                                \* floor: Cb + unison lies an octave below
 
+\* "reads back as the same interval": same number, same size (which of two equivalent notations is printed -- b5 or bb5 for
+\* the diminished fifth -- is not the property's business)
+SameIv(printed, iv) == LET q == ParseInterval(printed) IN q.ok /\ q.iv.n = iv.n /\ Size(q.iv) = Size(iv)
+\* the diminished and doubly diminished unison: whether "that quality exists for n = 1" is a matter of taste; no claim
+DontCare(iv) == iv.n = 1 /\ iv.q \in {"d", "dd"}
+
 DescribeOk(r) ==
   LET p == ParseInterval(r.degree)   pr == ParseNote(r.root)   root == [l |-> pr.l, a |-> pr.a] IN
   /\ p.ok /\ pr.ok /\ r.terminated
-  /\ r.ok                                         \* every interval the notation expresses exists
-  /\ r.out.printed = PrintInterval(p.iv)          \* prints canonically and (by NotationRoundTrip) parses back
-  /\ AppliedOk(r.out, root, p.iv, r.sharp)
+  /\ (DontCare(p.iv) \/
+      /\ r.ok                                         \* every interval the notation expresses exists
+      /\ SameIv(r.out.printed, p.iv)                   \* its printed notation reads back as the same interval
+      /\ AppliedOk(r.out, root, p.iv, r.sharp))
 
 \* strings in the notation's grammar (marks before the number as in YAML, or after it as in chord text)
 Canonical(s) == LET k == MarkRun(s) d == SubSeq(s, k + 1, Len(s)) IN
@@ -37,29 +44,26 @@ Canonical(s) == LET k == MarkRun(s) d == SubSeq(s, k + 1, Len(s)) IN
 CanonicalPost(s) == LET k == DigitRun(s) IN k >= 1 /\ s[1] # 48 /\ SubSeq(s, k + 1, Len(s)) \in ValidMarks
                        /\ \A i \in (k + 1)..Len(s) : s[i] \in {chFlat, chSharp}
 NotationOk(r) ==
+  LET a == ParseInterval(r.s)  b == ParseIntervalPostfix(r.s) IN
   /\ r.terminated
-  /\ Canonical(r.s)     => r.ok /\ r.printed = PrintInterval(ParseInterval(r.s).iv)
-  /\ CanonicalPost(r.s) => r.ok /\ r.printed = PrintInterval(ParseIntervalPostfix(r.s).iv)
+  /\ (Canonical(r.s) /\ ~DontCare(a.iv)) => r.ok /\ SameIv(r.printed, a.iv)
+  /\ (CanonicalPost(r.s) /\ r.ok /\ ~DontCare(b.iv)) => SameIv(r.printed, b.iv)     \* (the chord-text order of marks need not be accepted here)
   /\ r.ok => ParseInterval(r.printed).ok /\ ValidInterval(ParseInterval(r.printed).iv)   \* never prints something unreadable
-  \* a number written with leading zeros is the same (decimal) number, if it is accepted at all
-  /\ (r.ok /\ ParseInterval(r.s).ok /\ ValidInterval(ParseInterval(r.s).iv)) => r.printed = PrintInterval(ParseInterval(r.s).iv)
-  /\ ~r.ok => r.stdoutLen = 0 /\ r.stderrLen > 0
 
 NameOf(q, n) == q \o ToString(n)
 GenQualities == <<"Major", "Minor", "Perfect", "Augmented", "Diminished">>
 QOfName == [Major |-> "M", Minor |-> "m", Perfect |-> "P", Augmented |-> "A", Diminished |-> "d"]
 GenAttrOk(r) ==
   /\ r.ok
-  \* every generated attribute is a valid interval, named as its English name says
+  \* every generated attribute is a valid interval; one whose name is an English interval name is the interval it names
   /\ \A i \in 1..Len(r.attrs) : LET p == ParseInterval(r.attrs[i].degree) IN
-        /\ p.ok /\ ValidInterval(p.iv) /\ p.iv.n < r.d
-        /\ \E j \in 1..5 : /\ r.attrs[i].name = NameOf(GenQualities[j], p.iv.n)
-                            /\ p.iv.q = QOfName[GenQualities[j]]
-  \* and every valid (quality, n < d) is generated exactly once; impossible ones (major fourth) never
+        /\ p.ok /\ ValidInterval(p.iv) /\ p.iv.n <= r.d
+        /\ \A j \in 1..5 : r.attrs[i].name = NameOf(GenQualities[j], p.iv.n) => Size(p.iv) = Size([n |-> p.iv.n, q |-> QOfName[GenQualities[j]]])
+  \* and every valid (quality, n < d) of the five plain qualities is generated exactly once; impossible ones (major fourth) never
   /\ \A n \in 1..(r.d - 1) : \A j \in 1..5 :
         LET iv == [n |-> n, q |-> QOfName[GenQualities[j]]]
             hits == {i \in 1..Len(r.attrs) : r.attrs[i].name = NameOf(GenQualities[j], n)}
-        IN Cardinality(hits) = (IF ValidInterval(iv) THEN 1 ELSE 0)
+        IN DontCare(iv) \/ Cardinality(hits) = (IF ValidInterval(iv) THEN 1 ELSE 0)
 
 ChordDescOk(r) ==
   LET pr == ParseNote(r.root)  root == [l |-> pr.l, a |-> pr.a] IN
@@ -72,18 +76,23 @@ ChordDescOk(r) ==
 \* the Degree API: an interval exists iff the quality exists for the number; its size, its notation and the parse-back
 DegreeApiOk(r) ==
   LET iv == [n |-> r.n, q |-> r.q] IN
-  /\ r.exists = (r.n >= 1 /\ ValidInterval(iv))           \* impossible combinations such as a major fourth are rejected
-  /\ r.exists => /\ r.semitone = Size(iv)
-                  /\ r.printed = PrintInterval(iv)
+  /\ (DontCare(iv) \/ r.exists = (r.n >= 1 /\ ValidInterval(iv)))           \* impossible combinations such as a major fourth are rejected
+  /\ (r.exists /\ ~DontCare(iv)) =>
+                  /\ r.semitone = Size(iv)
                   /\ r.parsedOk /\ r.parsedN = r.n /\ r.parsedSemitone = Size(iv)     \* reads back as the same interval
-                  /\ ParseInterval(r.printed).iv = iv
+                  /\ SameIv(r.printed, iv)
 
 \* the spelling of the root: a letter with at most one accidental, written # / b or with the Unicode signs the chord text
 \* equally accepts, is that note; a root crd accepts is never read as a different note, and a string that is no note name
 \* has no "root + interval" to report (the chord form may also refuse the Unicode signs: then nothing is claimed)
+\* a root written as a letter followed by accidental signs (# b and the Unicode signs): the note it denotes, as a pitch class
+AccSigns == {chSharp, chFlat, 9839, 9837}
+IsSpelling(s) == Len(s) >= 1 /\ IsLetterChar(s[1]) /\ \A i \in 2..Len(s) : s[i] \in AccSigns
+SpellingPc(s) == LET RECURSIVE A(_)  A(i) == IF i > Len(s) THEN 0 ELSE (IF s[i] \in {chSharp, 9839} THEN 1 ELSE -1) + A(i + 1)
+                 IN (LetterPc[LetterOfChar(s[1]) + 1] + A(2) + 24) % 12
 ParseNoteU(s) ==
   IF Len(s) = 1 /\ IsLetterChar(s[1]) THEN [ok |-> TRUE, l |-> LetterOfChar(s[1]), a |-> 0]
-  ELSE IF Len(s) = 2 /\ IsLetterChar(s[1]) /\ s[2] \in {chSharp, chFlat, 9839, 9837}
+  ELSE IF Len(s) = 2 /\ IsLetterChar(s[1]) /\ s[2] \in AccSigns
        THEN [ok |-> TRUE, l |-> LetterOfChar(s[1]), a |-> IF s[2] \in {chSharp, 9839} THEN 1 ELSE -1]
   ELSE [ok |-> FALSE, l |-> 0, a |-> 0]
 RootSpellOk(r) ==
@@ -91,11 +100,10 @@ RootSpellOk(r) ==
       third == IF r.via = "attr" THEN 4 ELSE 3
       pa == ParseNote(r.applied) IN
   /\ r.terminated /\ ~r.panic
-  /\ (~r.ok => r.stdoutLen = 0 /\ r.stderrLen > 0)
-  /\ ((r.ok /\ r.via = "attr") => pr.ok)                          \* -r takes a note name: only a note name has a root + interval
-  /\ ((r.ok /\ pr.ok) =>                                          \* (-t takes chord text: blanks, `_` ... are C04's business)
-               /\ r.outRoot = PrintNote(root)                      \* it is the note that was written
-               /\ pa.ok /\ Pc([l |-> pa.l, a |-> pa.a]) = (NotePitch(root) + third) % 12)
+  \* an accepted spelling is never read as a different note (a string that is no spelling -- blanks, other text -- is not
+  \* the property's business: it may be refused, trimmed, whatever)
+  /\ ((r.ok /\ IsSpelling(r.root)) => pa.ok /\ Pc([l |-> pa.l, a |-> pa.a]) = (SpellingPc(r.root) + third) % 12)
+  /\ ((r.ok /\ pr.ok) => r.outRoot = PrintNote(root))                \* a plain note name is reported as written
   /\ ((pr.ok /\ \A i \in 1..Len(r.root) : r.root[i] < 128) => r.ok)  \* the ASCII spellings are always accepted
 
 RecOk(r) == CASE r.kind = "skipped" -> TRUE
